@@ -816,6 +816,9 @@ def recv_program():
             # a method that calls another method on its own receiver (K.run2 > k1.meth > x)
             fn("run2", ["self", "p"], [["bind", "y", V], ["bind", "r", ["mcall", "self", "meth", [var("p")]]],
                                        use("y", "r"), ["ret", var("y")]]),
+            # a method that calls a method on *another*, named instance (k1.cross > k2.meth > x)
+            fn("cross", ["self", "p"], [["bind", "y", V], ["bind", "r", ["mcall", "I_k2", "meth", [var("p")]]],
+                                        use("y", "r"), ["ret", var("y")]]),
             # a method that calls a plain function (call paths through a receiver: k1.run > helper > v)
             fn("run", ["self", "p"], [["bind", "x", V], ["bind", "r", ["call", "helper", [var("p")]]],
                                       use("x", "r"), ["ret", var("x")]]),
@@ -1016,6 +1019,16 @@ def genctx_program():
             [
                 ["bind", "x", V],
                 ["while", [["try", [["yield", var("x"), None]], [["Exception", None, [["pt"]]]], [], []]]],
+                ["bind", "r", ["call", "g", [V]]],
+            ],
+        ),
+        fn(
+            # thrown into, it calls g from its handler before it binds anything
+            "gen6",
+            ["p"],
+            [
+                ["bind", "x", V],
+                ["while", [["try", [["yield", var("x"), None]], [["Exception", None, [["bind", "r", ["call", "g", [V]]]]]], [], []]]],
                 ["bind", "r", ["call", "g", [V]]],
             ],
         ),
